@@ -193,9 +193,27 @@ def tryNew {δ} (tc : TestCase) (drv : Driver δ) (d : δ) (rng : Rng) : CtorRes
 /-- `entry_is_input` -/
 def entryIsInput (tc : TestCase) (col : Nat) : Bool := tc.inIdx.any (fun e => e.indexes col)
 
-/-- position of the right-most `X` in an input column -/
-def lastInputX (tc : TestCase) (entries : List REntry) : Option Nat :=
-  ((entries.zipIdx.filter (fun (e, i) => e == .x && entryIsInput tc i)).map (·.2)).getLast?
+/-- `f` applied to every entry together with its column number, starting at column `i` -/
+def mapIdxFrom (f : Nat → REntry → REntry) : List REntry → Nat → List REntry
+  | [], _ => []
+  | e :: es, i => f i e :: mapIdxFrom f es (i + 1)
+
+def isInputX (tc : TestCase) (i : Nat) (e : REntry) : Bool := e == .x && entryIsInput tc i
+def isInputC (tc : TestCase) (i : Nat) (e : REntry) : Bool := e == .c && entryIsInput tc i
+
+/-- column of an expected index that is not also an input column (the columns `expand_c` blanks) -/
+def isPureExp (tc : TestCase) (i : Nat) : Bool := tc.expIdx.any (fun e => e.indexes i) && !entryIsInput tc i
+
+/-- position of the right-most `X` in an input column (`.enumerate().rev().find_map(..)`), columns
+counted from `i` -/
+def lastInputXFrom (tc : TestCase) : List REntry → Nat → Option Nat
+  | [], _ => none
+  | e :: es, i =>
+    match lastInputXFrom tc es (i + 1) with
+    | some j => some j
+    | none => if isInputX tc i e then some i else none
+
+def lastInputX (tc : TestCase) (entries : List REntry) : Option Nat := lastInputXFrom tc entries 0
 
 /-- `expand_x`: split the top of the stack on its right-most input `X` until it has none -/
 def expandX (tc : TestCase) : Nat → List CRow → Res IterErr (List CRow)
@@ -208,26 +226,45 @@ def expandX (tc : TestCase) : Nat → List CRow → Res IterErr (List CRow)
       expandX tc f ({ top with entries := top.entries.set i (.num 0) } ::
                     { top with entries := top.entries.set i (.num 1) } :: rest)
 
-def setAll (entries : List REntry) (is : List Nat) (v : REntry) : List REntry :=
-  is.foldl (fun es i => es.set i v) entries
+def hasInputCFrom (tc : TestCase) : List REntry → Nat → Bool
+  | [], _ => false
+  | e :: es, i => isInputC tc i e || hasInputCFrom tc es (i + 1)
 
-/-- `expand_c` -/
+/-- the entries of a clock row: every input `C` becomes `v` (`for &i in &c_indices { … = Number(v) }`) -/
+def clockLow (tc : TestCase) (v : Int64) (es : List REntry) : List REntry :=
+  mapIdxFrom (fun i e => if isInputC tc i e then .num v else e) es 0
+
+/-- the entries of an unchecked clock row: additionally the pure expected columns are blanked -/
+def clockBlank (tc : TestCase) (v : Int64) (es : List REntry) : List REntry :=
+  mapIdxFrom (fun i e => if isInputC tc i e then .num v else if isPureExp tc i then .x else e) es 0
+
+/-- does blanking index past the end of the row (`row_result.entries[*entry_index] = X`)? -/
+def blankOutOfRange (tc : TestCase) (len : Nat) : Bool :=
+  tc.expIdx.any (fun i => match i with
+    | .entry col _ => !(entryIsInput tc col) && col ≥ len
+    | .dflt _ => false)
+
+/-- `expand_c`: the three loops of the code written as their pointwise effect -/
 def expandC (tc : TestCase) : List CRow → Res IterErr (List CRow)
   | [] => .panic "cache should be refilled before calling expand_c"
   | top :: rest =>
-    let cIdx := (top.entries.zipIdx.filter (fun (e, i) => e == .c && entryIsInput tc i)).map (·.2)
-    if cIdx.isEmpty then .ok (top :: rest)
+    if !(hasInputCFrom tc top.entries 0) then .ok (top :: rest)
+    else if blankOutOfRange tc top.entries.length then .panic "index out of bounds: entries"
     else
-      let e0 := setAll top.entries cIdx (.num 0)
-      let expCols := tc.expIdx.filterMap (fun i => match i with
-        | .entry col _ => if entryIsInput tc col then none else some col
-        | .dflt _ => none)
-      if expCols.any (fun col => col ≥ e0.length) then .panic "index out of bounds: entries"
-      else
-        let ex := setAll e0 expCols .x
-        let e1 := setAll ex cIdx (.num 1)
-        let e2 := setAll e1 cIdx (.num 0)
-        .ok (⟨e2, top.line, false⟩ :: ⟨e1, top.line, false⟩ :: ⟨e0, top.line, top.upd⟩ :: rest)
+      .ok (⟨clockBlank tc 0 top.entries, top.line, false⟩ :: ⟨clockBlank tc 1 top.entries, top.line, false⟩ ::
+           ⟨clockLow tc 0 top.entries, top.line, top.upd⟩ :: rest)
+
+/-- the part of `get_row` that works on the row stack: `expand_x`, `expand_c`, `pop` -/
+def popRow (tc : TestCase) (cache : List CRow) : Res IterErr (CRow × List CRow) :=
+  match expandX tc ((cache.head?.map (·.entries.length)).getD 0 + 1) cache with
+  | .err e => .err e
+  | .panic m => .panic m
+  | .ok cache1 =>
+    match expandC tc cache1 with
+    | .err e => .err e
+    | .panic m => .panic m
+    | .ok [] => .panic "called `Option::unwrap()` on a `None` value (cache.pop)"
+    | .ok (top :: rest) => .ok (top, rest)
 
 /-- `check_changed_entries` -/
 def changedFlags (prev : Option (List REntry)) (entries : List REntry) : List Bool :=
@@ -319,25 +356,20 @@ def getRow (tc : TestCase) (fuel : Nat) (s : RowIt) : GetRowRes :=
   | (.panic m, _) => .panic m
   | (.ok s, true) => .none s
   | (.ok s, false) =>
-    match expandX tc ((s.cache.head?.map (·.entries.length)).getD 0 + 1) s.cache with
+    match popRow tc s.cache with
     | .err _ => .panic "unreachable"
     | .panic m => .panic m
-    | .ok cache =>
-      match expandC tc cache with
+    | .ok (top, rest) =>
+      let changed := changedFlags s.prev top.entries
+      match genInputs tc top.entries changed with
       | .err _ => .panic "unreachable"
       | .panic m => .panic m
-      | .ok [] => .panic "called `Option::unwrap()` on a `None` value (cache.pop)"
-      | .ok (top :: rest) =>
-        let changed := changedFlags s.prev top.entries
-        match genInputs tc top.entries changed with
+      | .ok inputs =>
+        match genExpected tc top.entries with
         | .err _ => .panic "unreachable"
         | .panic m => .panic m
-        | .ok inputs =>
-          match genExpected tc top.entries with
-          | .err _ => .panic "unreachable"
-          | .panic m => .panic m
-          | .ok expected =>
-            .row ⟨top.line, inputs, expected, top.upd⟩ { s with cache := rest, prev := some top.entries }
+        | .ok expected =>
+          .row ⟨top.line, inputs, expected, top.upd⟩ { s with cache := rest, prev := some top.entries }
 
 /-- the per-entry part of `extract_output_values` (between the two `swap_vars`) -/
 def extractOne (tc : TestCase) (outs : List OutEntry) (c : Ctx) (p : EIdx × OIdx) : Res IterErr (OutVal × Ctx) :=
